@@ -35,7 +35,13 @@ def run(ctx):
     ctx.require(arm, "copyfile: staging decision not found")
     test = A.unparse(arm[0].test)
     in_else = any(A.contains_node(s, st_stmt) or s is st_stmt for s in arm[0].orelse)
-    ctx.check("R1", cp, (test == "not existent" and in_else) or (test == "existent" and not in_else), "stage-iff-exists",
+    # the existence flag is located by its ROLE, not its spelling: it is the local the staging decision tests
+    # (`if not <flag>` / `if <flag>`); its polarity is fixed below by where it is set True (after the lstat probe)
+    t0 = arm[0].test
+    negated = isinstance(t0, ast.UnaryOp) and isinstance(t0.op, ast.Not)
+    t1 = t0.operand if negated else t0
+    flag = t1.id if isinstance(t1, ast.Name) and t1.id not in cp.params() else None
+    ctx.check("R1", cp, flag is not None and ((negated and in_else) or (not negated and not in_else)), "stage-iff-exists",
               "the '#new' staging path is used exactly when the destination already exists", f"staging is decided by `{test}` (else-arm={in_else})", node=arm[0])
     # existence probe: lstat semantics
     probes = [c for c in A.calls(cp.node) if dotted(c.func) in ("os.path.exists", "os.path.isfile", "os.stat") and c.args and A.unparse(c.args[0]) == final]
@@ -43,12 +49,22 @@ def run(ctx):
               f"copyfile probes the destination with `{A.unparse(probes[0]) if probes else ''}`, which follows symlinks: a dangling symlink at the destination counts as absent and the data is written THROUGH it to a path outside the contents set", node=probes[0] if probes else None)
     lprobe = [c for c in A.calls(cp.node) if dotted(c.func) in ("gen_obj", "os.lstat", "os.path.lexists", "os.path.islink") and c.args and A.unparse(c.args[0]) == final and not c.keywords]
     ctx.check("R1", cp, bool(lprobe), "probe-lstat", "the destination is probed with lstat semantics (gen_obj/lstat/lexists)")
-    ex = [(t, v) for t, v, _ in A.assignments(cp.node, "existent")]
-    ctx.check("R1", cp, any(A.try_literal(v) is True for t, v in ex) and any(A.try_literal(v) is False for t, v in ex), "existent-flag", "the existence flag is set on both outcomes of the probe")
+    ex = [(t, v, st) for t, v, st in A.assignments(cp.node, flag)] if flag else []
+    # polarity: True is recorded on the path where the lstat-semantics probe succeeded (after it, in the same
+    # try body / branch, or under an `if <probe>`), so "flag" means "destination exists" whatever it is called
+    def _after_probe(st):
+        par = getattr(st, "_parent", None)
+        sibs = next((body for fld in ("body", "orelse", "finalbody") for body in [getattr(par, fld, None)] if isinstance(body, list) and any(x is st for x in body)), [])
+        before = sibs[:next((i for i, x in enumerate(sibs) if x is st), 0)]
+        if any(A.contains_node(b, c) for b in before for c in lprobe):
+            return True
+        return any(isinstance(p, ast.If) and any(A.contains_node(p.test, c) for c in lprobe) and any(A.contains_node(b, st) for b in p.body) for p in A.parents(st))
+    ctx.check("R1", cp, any(A.try_literal(v) is True and _after_probe(st) for t, v, st in ex) and any(A.try_literal(v) is False for t, v, st in ex), "existent-flag", "the existence flag is set on both outcomes of the probe")
     # taint: every mutator takes fp; final only as rename destination / read-only uses
     READ_OK = {"gen_obj", "os.path.dirname", "fs.isfs_obj", "fs.isdir", "fs.isreg", "fs.issym", "fs.isfifo", "fs.isdev", "CannotOverwrite", "FailedCopy", "TypeError"}
     g = cfg_of(cp.node)
     writers = []
+    ren = None
     for c in A.calls(cp.node):
         d = dotted(c.func) or ""
         if d in READ_OK or d.startswith("os.path.") or d in ("ensure_dirs", "str", "os.makedev"):
@@ -78,13 +94,15 @@ def run(ctx):
         if any(final == a or fp == a for a in argtxt):
             ctx.check("R1", cp, False, f"unknown-mutator:{d}", "", f"copyfile passes the destination to `{A.unparse(c)[:60]}`, a call the replace-by-rename rule does not know", node=c)
     ctx.require(len(writers) >= 5, "copyfile: writers not found")
+    ctx.require(ren is not None, "copyfile: publishing os.rename not found")
     doms = g.dominators()
     rn = g.node_of(ren)
     epn = [g.node_of(c) for c in writers if dotted(c.func) == "ensure_perms"][0]
     ctx.check("R1", cp, epn in doms.get(rn, ()), "rename-after-perms", "os.rename is dominated by ensure_perms (no instant with new content and default metadata at the final path)",
               "copyfile renames the staged file into place before its metadata is applied: an interruption leaves new content with umask-default mode at the final path", node=ren)
     rguard = [p for p in A.parents(ren) if isinstance(p, ast.If)]
-    ctx.check("R1", cp, bool(rguard) and A.unparse(rguard[0].test) == "existent", "rename-iff-staged", "the rename happens exactly when staging was used")
+    ctx.check("R1", cp, bool(rguard) and flag is not None and isinstance(rguard[0].test, ast.Name) and rguard[0].test.id == flag and any(A.contains_node(s, ren) for s in rguard[0].body),
+              "rename-iff-staged", "the rename happens exactly when staging was used")
     # all paths from a writer to the normal exit pass the rename when existent: writers precede rename
     for c in writers:
         ctx.check("R1", cp, rn in g.reach([g.node_of(c)]), f"writer-before-rename@{c.lineno}", "every write precedes the publishing rename", node=c)
